@@ -116,34 +116,35 @@ type pointRec struct {
 
 // Exec is one controlled execution.
 type Exec struct {
-	threads   []*thread
-	cur       *thread
-	prefix    []int
-	points    []pointRec
-	steps     int
-	horizon   int
-	status    Status
-	end       chan struct{}
-	ack       chan struct{}
-	aborting  bool
-	objs      int
-	panics    []PanicInfo
-	races     []RaceInfo
-	raceSeen  map[string]bool
-	trace     []string // only when tracing
-	tracing   bool
-	hash      uint64 // rolling hash of (thread,kind,obj) steps
-	statesFn  func(uint64)
-	timers    []*Timer
-	now       time.Time
-	lastProg  int
-	sigSeen   map[uint64]int
-	spinOff   bool
-	shadow    map[uintptr]*shadow
-	raceOn    bool
-	contended bool
-	forced    int
-	nondet    string
+	threads    []*thread
+	cur        *thread
+	prefix     []int
+	points     []pointRec
+	steps      int
+	horizon    int
+	status     Status
+	end        chan struct{}
+	ack        chan struct{}
+	aborting   bool
+	objs       int
+	panics     []PanicInfo
+	races      []RaceInfo
+	raceSeen   map[string]bool
+	trace      []string // only when tracing
+	tracing    bool
+	hash       uint64 // rolling hash of (thread,kind,obj) steps
+	statesFn   func(uint64)
+	timers     []*Timer
+	now        time.Time
+	lastProg   int
+	sigSeen    map[uint64]int
+	spinOff    bool
+	shadow     map[uintptr]*shadow
+	raceOn     bool
+	contended  bool
+	forced     int
+	freeForced bool
+	nondet     string
 }
 
 // cur execution (exactly one managed thread runs at a time, so a global is the
@@ -249,7 +250,7 @@ func (x *Exec) reschedule(t *thread) {
 		selfFirst := opts[0] == t
 		idx := 0
 		if len(opts) > 1 {
-			idx = x.choose(len(opts), selfFirst, false)
+			idx = x.choose(len(opts), selfFirst || !x.freeForced, false)
 			x.contended = true
 		}
 		if !selfFirst {
@@ -429,7 +430,10 @@ func site() string {
 	for {
 		f, more := fr.Next()
 		fn := f.Function
-		if fn != "" && !strings.HasPrefix(fn, "verif/vs") && !strings.HasPrefix(fn, "runtime.") {
+		if fn != "" && !strings.HasPrefix(fn, "verif/vs.") && !strings.HasPrefix(fn, "verif/vs/") && !strings.HasPrefix(fn, "runtime.") {
+			if strings.HasPrefix(fn, "main.") || strings.HasPrefix(fn, "verif/") {
+				return "harness"
+			}
 			return shortFn(fn)
 		}
 		if !more {
